@@ -11,11 +11,11 @@ COLON_HEX_RESTR=(r"\[[A-Fa-f0-9:]+" +
 DNS_NAME_RESTR=r"[A-Za-z.0-9\-]+"
 
 # This matches just (hostname or IPv4 address) and port number
-OLD_STYLE_HINT_RE=re.compile(r"^(%s|%s):(\d+){1,5}$" % (DOTTED_QUAD_RESTR,
+OLD_STYLE_HINT_RE=re.compile(r"^(%s|%s):(\d{1,5})$" % (DOTTED_QUAD_RESTR,
                                                         DNS_NAME_RESTR))
 # This matches "tcp:" prefix plus (hostname or IPv4 address or []-wrapped
 # IPv6 address) plus port number
-NEW_STYLE_HINT_RE=re.compile(r"^tcp:(%s|%s|%s):(\d+){1,5}$" %
+NEW_STYLE_HINT_RE=re.compile(r"^tcp:(%s|%s|%s):(\d{1,5})$" %
                              (DOTTED_QUAD_RESTR, COLON_HEX_RESTR,
                               DNS_NAME_RESTR))
 
